@@ -247,6 +247,8 @@ def run(ctx, cases=None):
     res = sysrun.run(ctx, [ctx.seed * 100000 + 500 + i for i in range(n)], 16, ['mon_c06'], do_corr='pipeline',
                      model_exe=_pipeline_exe(ctx))
     system_gate(ctx, res)
+    from lib import authoropts
+    authoropts.check(ctx, relevant=['bypass_build_status'])     # "bypassed by ... per-author setting"
 
 
 def _pipeline_exe(ctx):
